@@ -116,7 +116,10 @@ TEXT = {
                 "VerifyNewState accepts a successor only if its root is signed by a threshold of DISTINCT root keys of the predecessor "
                 "(C02_newState_root_signed, via C05_sound and a counting lemma) and only if no version decreases and no rule file "
                 "disappears (C02_newState_versions); LoadState's chain enforces both between every consecutive pair, by induction over "
-                "the log (C02_chain_sound). The whole-verification statement C02_sound_statement is evaluated as a declarative "
+                "the log (C02_chain_sound); State.Verify accepts a state only if its primary rule file is signed by a threshold of distinct "
+                "keys of the role its own root names (C02_verify_primary_signed) and every delegated rule file it contains was reached through "
+                "a rule of that name whose verifier accepted its envelope - no dangling file, none taken on trust (C02_verify_delegations, "
+                "induction over the delegation queue). The whole-verification statement C02_sound_statement is evaluated as a declarative "
                 "predicate (signer counting, reachability of delegated files, dangling files, version monotonicity) on every "
                 "verification the REAL verifier accepts, in full / latest-only / from-entry mode; the model must reproduce every verdict.",
         "note": TB + "Mergeability mode is covered under C19. F4 (in-range policy entries were not self-verified) was found, reproduced from "
